@@ -18,6 +18,15 @@ JAX_KINDS = ['cmaes', 'gp_bandit', 'gp_ucb_pe']   # streams drawn from jax.rando
 def make_seeded_factory(ds):
   """f(problem, seed=None) for every designer of the property's quantifier."""
   kind, cfg = ds['kind'], ds.get('cfg', {})
+  if kind == 'eagle' and cfg.get('config') is not None:
+    # explicit (public) FireflyAlgorithmConfig fields, e.g. a small pool so that the
+    # later phases of the algorithm are reached by a short history
+    from vizier._src.algorithms.designers.eagle_strategy import eagle_strategy
+    from vizier._src.algorithms.designers.eagle_strategy import eagle_strategy_utils as esu
+    def f(p, seed=None):
+      return eagle_strategy.EagleStrategyDesigner(
+          p, config=esu.FireflyAlgorithmConfig(**cfg['config']), seed=seed)
+    return f
   if kind in L.DESIGNER_KINDS or kind == 'random':
     return L.make_factory(ds)
   if kind == 'gp_bandit':
@@ -50,8 +59,51 @@ def make_seeded_factory(ds):
 
 
 # ---------------------------------------------------------------------------
+# What the last run_stream() in this process went through (not part of the compared
+# stream): for Eagle, whether a suggestion was drawn for a *new* fly after flies had
+# already been moved, i.e. the pool was full, lost a fly and was re-populated from
+# the initial (quasi-random) designer.
+last_obs = {}
+
+
+class _FlyPhases:
+  """Reads the public `eagle/parent_fly_id` suggestion metadata."""
+
+  def __init__(self):
+    self.seen, self.moved, self.refill_at, self.n = set(), False, None, 0
+
+  def see(self, items):
+    for s in items:
+      self.n += 1
+      try:
+        pid = s.metadata.ns('eagle').get('parent_fly_id')
+      except Exception:  # pylint: disable=broad-except
+        pid = None
+      if pid is None:
+        continue
+      if pid in self.seen:
+        self.moved = True
+      elif self.moved and self.refill_at is None:
+        self.refill_at = self.n
+      self.seen.add(pid)
+
+  def publish(self, kind):
+    global last_obs
+    last_obs = {'kind': kind, 'suggestions': self.n, 'moved': self.moved,
+                'refill_at': self.refill_at}
+
+
 def run_stream(case):
   """Suggestion stream of one designer run: list (steps) of canonical suggestions."""
+  try:
+    return _run_stream(case, _FlyPhases())
+  except Exception:
+    global last_obs
+    last_obs = {}
+    raise
+
+
+def _run_stream(case, phases):
   import copy
   from vizier import algorithms as vza
   pd, ds, seed, script = case['problem'], case['designer'], case['seed'], case['script']
@@ -65,10 +117,12 @@ def run_stream(case):
     for i, b in enumerate(script['batches']):
       trials = sug.suggest(b)
       out.append(L.canon_suggestions(trials))
+      phases.see(trials)
       for t in sug.supporter.GetTrials(status_matches=vz.TrialStatus.ACTIVE):
         verdict = L.decide(script, t.id, i)
         if verdict != 'wait':
           L.complete_trial(pd, script, t, verdict)
+    phases.publish(ds['kind'])
     return out
   if case.get('wrap') == 'stateless_policy':
     # the way the service hosts a stateful designer: a new policy object per
@@ -83,10 +137,12 @@ def run_stream(case):
           sup.study_descriptor().config, sup, factory, seed=seed)
       trials = sup.SuggestTrials(policy, b)
       out.append(L.canon_suggestions(trials))
+      phases.see(trials)
       for t in sup.GetTrials(status_matches=vz.TrialStatus.ACTIVE):
         verdict = L.decide(script, t.id, i)
         if verdict != 'wait':
           L.complete_trial(pd, script, t, verdict)
+    phases.publish(ds['kind'])
     return out
   designer = factory(problem, seed=seed)
   active = {}
@@ -94,6 +150,7 @@ def run_stream(case):
   for i, b in enumerate(script['batches']):
     suggestions = list(designer.suggest(b))
     out.append(L.canon_suggestions(suggestions))
+    phases.see(suggestions)
     for s in suggestions:
       active[next_id] = s.to_trial(next_id)
       next_id += 1
@@ -106,6 +163,7 @@ def run_stream(case):
     if i + 1 < len(script['batches']):
       designer.update(vza.CompletedTrials(copy.deepcopy(done)),
                       vza.ActiveTrials(copy.deepcopy(list(active.values()))))
+  phases.publish(ds['kind'])
   return out
 
 
@@ -118,27 +176,68 @@ NOISES = ['NO_NOISE', 'MODERATE_GAUSSIAN', 'SEVERE_GAUSSIAN', 'MODERATE_UNIFORM'
           'LIGHT_ADDITIVE_GAUSSIAN', 'SEVERE_ADDITIVE_GAUSSIAN']
 
 
-def run_bench(case):
-  """Trial sequence of one seeded BenchmarkRunner execution."""
-  from vizier import pyvizier as vz
+class _InfeasibleFactory:
+  """Experimenter factory: HashingInfeasibleExperimenter on top of another factory."""
+
+  def __init__(self, inner, spec):
+    self.inner, self.spec = inner, spec
+
+  def __call__(self):
+    from vizier._src.benchmarks.experimenters import infeasible_experimenter
+    return infeasible_experimenter.HashingInfeasibleExperimenter(
+        self.inner(), infeasible_prob=self.spec['p'], seed=self.spec['seed'])
+
+
+def _experimenter_factory(case):
+  """The standard seeded factories: SingleObjective(BBOB) with its transformations."""
+  import numpy as np
+  from vizier._src.benchmarks.experimenters import experimenter_factory as xf_lib
+  xf = case.get('xf') or {}
+  kw = {}
+  if xf.get('shift') is not None:
+    kw['shift'] = np.asarray(xf['shift'], dtype=float)
+  if xf.get('normalize'):
+    kw['num_normalization_samples'] = int(xf['normalize'])
+  if xf.get('discrete'):
+    kw['discrete_dict'] = {int(k): int(v) for k, v in xf['discrete'].items()}
+  if xf.get('categorical'):
+    kw['categorical_dict'] = {int(k): int(v) for k, v in xf['categorical'].items()}
+  if xf.get('permute_seed') is not None:
+    kw['permute_categoricals'] = True
+    kw['permute_seed'] = int(xf['permute_seed'])
+  f = xf_lib.SingleObjectiveExperimenterFactory(
+      xf_lib.BBOBExperimenterFactory(name=case['fn'], dim=case['dim'],
+                                     rotation_seed=case['fn_seed']),
+      noise_type=case['noise'], noise_seed=case['noise_seed'], **kw)
+  if case.get('infeasible'):
+    f = _InfeasibleFactory(f, case['infeasible'])
+  return f
+
+
+def _bench_parts(case):
+  """(state factory, runner): the two long-lived objects of a benchmark."""
   from vizier._src.benchmarks.experimenters import noisy_experimenter
   from vizier._src.benchmarks.experimenters import numpy_experimenter
   from vizier._src.benchmarks.experimenters.synthetic import bbob
   from vizier._src.benchmarks.runners import benchmark_runner
   from vizier._src.benchmarks.runners import benchmark_state
-  problem = bbob.DefaultBBOBProblemStatement(case['dim'])
-  impl = functools.partial(getattr(bbob, case['fn']), seed=case['fn_seed'])
-  exptr = numpy_experimenter.NumpyExperimenter(impl, problem)
-  exptr = noisy_experimenter.NoisyExperimenter.from_type(
-      exptr, case['noise'], seed=case['noise_seed'])
-  if case.get('infeasible'):
-    from vizier._src.benchmarks.experimenters import infeasible_experimenter
-    exptr = infeasible_experimenter.HashingInfeasibleExperimenter(
-        exptr, infeasible_prob=case['infeasible']['p'], seed=case['infeasible']['seed'])
   factory = make_seeded_factory(case['designer'])
-  state_factory = benchmark_state.DesignerBenchmarkStateFactory(
-      experimenter=exptr, designer_factory=factory)
-  state = state_factory(seed=case['seed'])
+  if case.get('via') == 'exptr_factory':
+    # the experimenter is described by a factory; every state gets its own
+    state_factory = benchmark_state.ExperimenterDesignerBenchmarkStateFactory(
+        experimenter_factory=_experimenter_factory(case), designer_factory=factory)
+  else:
+    problem = bbob.DefaultBBOBProblemStatement(case['dim'])
+    impl = functools.partial(getattr(bbob, case['fn']), seed=case['fn_seed'])
+    exptr = numpy_experimenter.NumpyExperimenter(impl, problem)
+    exptr = noisy_experimenter.NoisyExperimenter.from_type(
+        exptr, case['noise'], seed=case['noise_seed'])
+    if case.get('infeasible'):
+      from vizier._src.benchmarks.experimenters import infeasible_experimenter
+      exptr = infeasible_experimenter.HashingInfeasibleExperimenter(
+          exptr, infeasible_prob=case['infeasible']['p'], seed=case['infeasible']['seed'])
+    state_factory = benchmark_state.DesignerBenchmarkStateFactory(
+        experimenter=exptr, designer_factory=factory)
   subs = []
   for op, n in case['routine']:
     if op == 'GE':
@@ -151,7 +250,10 @@ def run_bench(case):
       subs.append(benchmark_runner.EvaluateActiveTrials(n))
     else:
       raise ValueError(op)
-  benchmark_runner.BenchmarkRunner(subs, num_repeats=case['repeats']).run(state)
+  return state_factory, benchmark_runner.BenchmarkRunner(subs, num_repeats=case['repeats'])
+
+
+def _trial_sequence(state):
   out = []
   for t in state.algorithm.supporter.GetTrials():
     metrics = sorted((k, repr(float(m.value))) for k, m in (
@@ -159,6 +261,30 @@ def run_bench(case):
     out.append([t.id, L.canon_params(t.parameters), metrics, t.status.name,
                 bool(t.infeasible)])
   return out
+
+
+def run_bench(case):
+  """Trial sequence of one seeded BenchmarkRunner execution (everything built anew)."""
+  state_factory, runner = _bench_parts(case)
+  state = state_factory(seed=case['seed'])
+  runner.run(state)
+  return _trial_sequence(state)
+
+
+def run_bench_reused(case, seeds):
+  """One state factory and one runner serve len(seeds) consecutive seeded runs."""
+  state_factory, runner = _bench_parts(case)
+  out = []
+  for s in seeds:
+    state = state_factory(seed=s)
+    runner.run(state)
+    out.append(_trial_sequence(state))
+  return out
+
+
+def execute_reused(case, seeds):
+  import json
+  return json.loads(json.dumps(run_bench_reused(case, seeds)))
 
 
 def execute(case):
